@@ -132,9 +132,10 @@ def check_string(acc, src, origin):
 def corpus_shards(tier):
     plan = 'fault-quick' if tier == 'quick' else 'fault-thorough'
     out = [dict(s, kind='neigh', tier=tier) for s in layers.shards(plan, ())]
-    for path, text in layers.sample_texts():
-        for i in range(48):
-            out.append({'kind': 'sample', 'path': path, 'i': i, 'k': 48, 'insertions': tier != 'quick'})
+    for si, (path, text) in enumerate(layers.sample_texts()):
+        k = 48 if len(text) > 300 else 2
+        for i in range(k):
+            out.append({'kind': 'sample', 'sample': si, 'i': i, 'k': k, 'insertions': tier != 'quick'})
     return out
 
 
@@ -171,7 +172,7 @@ def run_shard(shard):
                 acc.extra['neighbours'] += 1
             acc.extra['corpus_docs'] += 1
     elif kind == 'sample':
-        text = open(shard['path'], encoding='utf8').read()
+        text = layers.sample_texts()[shard['sample']][1]
         idx = 0
         for k, s in strings.neighbourhood(text, insertions=shard['insertions'], transpositions=shard['insertions'],
                                           hostile=['\\', '{', '}', '$', '%']):
